@@ -744,6 +744,99 @@ def lifecycle_stream(ctx):
             gc.collect()
 
 
+def doctored_stream(ctx):
+    """construction route 'OpenSSH-format private key file whose PUBLIC sections (outer public blob and the inner
+    copies) carry ANOTHER key's public material, private part intact' - stale / damaged / doctored file.  Allowed:
+    (a) the loader refuses it with SSHException, or (b) it loads and the object is self-consistent: its signature
+    verifies under itself and under the key rebuilt from its asbytes(), and the other key's signature does not.
+    Never (c): an object that signs with one key and verifies / publishes another."""
+    import base64
+    import io
+    import os
+    import tempfile
+    import paramiko
+    from paramiko.ssh_exception import SSHException
+    from pv import lib_keyfiles as kf
+    from cryptography.hazmat.primitives import serialization as ser
+
+    rng = ctx.rng
+
+    def pub_parts(kind, ck):
+        """byte strings that carry the public material inside the container"""
+        pk = ck.public_key()
+        if kind == "ec":
+            return [pk.public_bytes(ser.Encoding.X962, ser.PublicFormat.UncompressedPoint)]
+        if kind == "ed":
+            return [pk.public_bytes(ser.Encoding.Raw, ser.PublicFormat.Raw)]
+        n = pk.public_numbers().n
+        return [lk.mpint_raw(n)]
+
+    specs = [("ec", 256), ("ec", 384), ("ec", 521), ("rsa", 1024), ("ed", None)]
+    tmp = tempfile.mkdtemp(prefix="pv-c35d-")
+    try:
+        for kind, param in specs:
+            for rep in range(3 if ctx.thorough else 1):
+                a = lk.gen_crypto_key(kind, param, 40 + 2 * rep)
+                b = lk.gen_crypto_key(kind, param, 41 + 2 * rep)
+                if kind == "rsa" and len(pub_parts(kind, a)[0]) != len(pub_parts(kind, b)[0]):
+                    continue
+                parts = kf.split_armor(lk.pem_of(a, "openssh").encode())
+                raw = base64.b64decode(parts[3])
+                pa, pb = pub_parts(kind, a)[0], pub_parts(kind, b)[0]
+                occurrences = raw.count(pa)
+                variants = [("all-public-copies", raw.replace(pa, pb))]
+                if occurrences > 1:
+                    first = raw.find(pa)
+                    variants.append(("outer-copy-only", raw[:first] + pb + raw[first + len(pa):]))
+                    last_ = raw.rfind(pa)
+                    variants.append(("inner-copy-only", raw[:last_] + pb + raw[last_ + len(pa):]))
+                cls = lk.key_class(kind)
+                other = cls.from_private_key(io.StringIO(lk.pem_of(b, "openssh")))
+                data = rng.randbytes(20)
+                other_blob = other.sign_ssh_data(data).asbytes()
+                for vname, vraw in variants:
+                    text = kf.join_armor(parts[0], parts[1], parts[2], vraw, parts[4]).decode()
+                    path = os.path.join(tmp, "k")
+                    with open(path, "w") as f:
+                        f.write(text)
+                    os.chmod(path, 0o600)
+                    for entry, load in (("from_private_key", lambda: cls.from_private_key(io.StringIO(text))),
+                                        ("from_private_key_file", lambda: cls.from_private_key_file(path)),
+                                        ("PKey.from_path", lambda: paramiko.PKey.from_path(path))):
+                        case = {"stream": "doctored", "kind": kind, "param": param, "variant": vname, "entry": entry,
+                                "public_copies_in_file": occurrences, "file_text": text, "data": data.hex()}
+                        ctx.case(("doctored", kind, param, vname, entry, rep), True)
+                        try:
+                            key = load()
+                        except SSHException:
+                            ctx.dist("doctored:%s:%s:refused" % (kind, vname))
+                            continue
+                        except Exception as e:  # noqa: BLE001
+                            if entry == "PKey.from_path":
+                                ctx.dist("doctored:%s:from_path:%s" % (kind, type(e).__name__))   # cryptography's own loader
+                                continue
+                            ctx.fail("load-raises:%s:%s" % (kind, exc_site(e)), case, repr(e))
+                            continue
+                        ctx.dist("doctored:%s:%s:loaded" % (kind, vname))
+                        blob = key.sign_ssh_data(data).asbytes()
+                        own = lk.call_verify(key, data, blob)
+                        try:
+                            pub = cls(data=key.asbytes())
+                            cp = lk.call_verify(pub, data, blob)
+                        except Exception as e:  # noqa: BLE001
+                            cp = ("exc", e)
+                        foreign = lk.call_verify(key, data, other_blob)
+                        txt = lambda r: repr(r[1]) if r[0] == "ok" else type(r[1]).__name__  # noqa: E731
+                        if own != ("ok", True) or cp != ("ok", True) or foreign != ("ok", False):
+                            ctx.fail("loaded-key-inconsistent:" + kind, case,
+                                     "loaded from a file whose public copies (%s) belong to another key: own signature under the "
+                                     "same object %s, under the asbytes() counterpart %s, the other key's signature %s"
+                                     % (vname, txt(own), txt(cp), txt(foreign)))
+    finally:
+        import shutil
+        shutil.rmtree(tmp, ignore_errors=True)
+
+
 ALLOWED_SELF_ASSIGN = {  # methods of the key classes that may assign attributes of self (construction phase only)
     ("rsakey.py", "RSAKey"): {"__init__", "_decode_key"},
     ("ecdsakey.py", "ECDSAKey"): {"__init__", "_decode_key"},
@@ -798,7 +891,7 @@ def run(ctx):
                "fields >= 2^20 on a short body, RSA leading zeros, non-minimal mpints) are not 'altered signatures'")
     ctx.build()
     table_check(ctx, "before")
-    for stream in (source_facts, lifecycle_stream, text_stream, toy_stream, witness_replay, real_stream, history_stream,
+    for stream in (source_facts, lifecycle_stream, doctored_stream, text_stream, toy_stream, witness_replay, real_stream, history_stream,
                    reentrancy_stream, lifecycle_stream):
         lk.guarded(ctx, stream)
     table_check(ctx, "after")
